@@ -17,6 +17,7 @@ import (
 	"encoding/binary"
 	"encoding/hex"
 	"encoding/json"
+	"errors"
 	"flag"
 	"fmt"
 	"io"
@@ -190,6 +191,9 @@ type runner struct {
 	ops  []string
 	enc  *json.Encoder
 	keys [][]byte
+
+	resumeMaybe bool               // a time-limited index GC cycle ran since the store was opened: a resume cursor may be pending
+	hook        func(point string) // the interference installed by an "at" line, if any
 }
 
 func (r *runner) open(dir string, bits uint8) (*store.Store, error) {
@@ -343,12 +347,44 @@ func (c budgetCtx) Err() error {
 
 func withBudget(n int64) context.Context { return budgetCtx{context.Background(), &n} }
 
+// armedCtx is a budgetCtx that starts to count only once *armed is set (the production primary collector starts its
+// timer after the freelist has been applied).
+type armedCtx struct {
+	context.Context
+	left  *int64
+	armed *bool
+}
+
+func (c armedCtx) Err() error {
+	if !*c.armed {
+		return nil
+	}
+	if *c.left <= 0 {
+		return context.DeadlineExceeded
+	}
+	*c.left--
+	return nil
+}
+
+// gcClass names the outcome of a (time-limited) collector cycle for the Coq model.
+func gcClass(err error) string {
+	switch {
+	case err == nil:
+		return "GOk"
+	case errors.Is(err, context.DeadlineExceeded):
+		return "GDeadline"
+	}
+	return "GErr"
+}
+
+func coqBudget(b int64) string { return fmt.Sprintf("(Some %d%%nat)", b) }
+
 // modelled reports whether every operation of the history exists in the Coq model.
 func modelled(h *hist.History) bool {
 	for _, o := range h.Ops {
 		switch o.Kind {
-		case "pgcb", "igcb":
-			return false
+		case "pgcb":
+			return false // the interruption may fall into the freelist hand-over, whose work file the model does not have
 		case "at":
 			if o.Point != "store.commit.afterIndexFlush" && o.Point != "store.Flush.afterCommit" {
 				return false
@@ -495,7 +531,7 @@ func (r *runner) run() (term string, err error) {
 			inner := o
 			fired := false
 			innerIdx := i
-			verifhook.Set(func(point string) {
+			r.hook = func(point string) {
 				if point != inner.Point || fired {
 					return
 				}
@@ -534,7 +570,8 @@ func (r *runner) run() (term string, err error) {
 				}
 				ir.Extra = iextra
 				pendingRecs = append(pendingRecs, ir)
-			})
+			}
+			verifhook.Set(r.hook)
 			continue
 		case "put":
 			b0 := r.blockOf(o.Key)
@@ -644,6 +681,7 @@ func (r *runner) run() (term string, err error) {
 				extra["fsck"] = r.fsck()
 			}
 		case "reopen", "missize":
+			r.resumeMaybe = false // the resume cursor lives in memory only
 			before := fileSizes(r.dir, "i")
 			if e := s.Close(); e != nil {
 				return "", fmt.Errorf("op %d: close: %v", i, e)
@@ -730,6 +768,7 @@ func (r *runner) run() (term string, err error) {
 			r.observe()
 			extra["fsck"] = r.fsck()
 		case "rebits":
+			r.resumeMaybe = false
 			before := fileSizes(r.dir, "i")
 			if e := s.Close(); e != nil {
 				return "", fmt.Errorf("op %d: close: %v", i, e)
@@ -753,7 +792,12 @@ func (r *runner) run() (term string, err error) {
 		case "igc":
 			_, _, e := s.Index().VerifGC(context.Background(), o.N != 0)
 			jr.Res = errClass(e)
-			r.ops = append(r.ops, fmt.Sprintf("(YX (XO (OIndexGC %v)), XR %s)", o.N != 0, jr.Res))
+			if r.resumeMaybe {
+				// a time-limited cycle may have left a resume cursor: the unlimited cycle of the budget-aware model honours it
+				r.ops = append(r.ops, fmt.Sprintf("(YIgcB %v None %s, XR ROk)", o.N != 0, gcClass(e)))
+			} else {
+				r.ops = append(r.ops, fmt.Sprintf("(YX (XO (OIndexGC %v)), XR %s)", o.N != 0, jr.Res))
+			}
 			r.observe()
 			extra["dir"] = r.dirState()
 			extra["fsck_after_gc"] = r.fsck()
@@ -772,6 +816,29 @@ func (r *runner) run() (term string, err error) {
 		case "igcb":
 			_, _, e := s.Index().VerifGC(withBudget(o.B), o.N != 0)
 			jr.Res = errClass(e)
+			extra["gc_class"] = gcClass(e)
+			r.resumeMaybe = true
+			r.ops = append(r.ops, fmt.Sprintf("(YIgcB %v %s %s, XR ROk)", o.N != 0, coqBudget(o.B), gcClass(e)))
+			r.observe()
+			extra["dir"] = r.dirState()
+			extra["fsck_after_gc"] = r.fsck()
+		case "pgcl":
+			armed := false
+			left := o.B
+			prev := r.hook
+			verifhook.Set(func(point string) {
+				if point == "gc.afterFreeList" {
+					armed = true
+				}
+				if prev != nil {
+					prev(point)
+				}
+			})
+			_, e := s.Primary().(*mhprimary.MultihashPrimary).GC(armedCtx{context.Background(), &left, &armed}, o.N)
+			jr.Res = errClass(e)
+			extra["gc_class"] = gcClass(e)
+			r.ops = append(r.ops, fmt.Sprintf("(YPgcL %d %s %s, XR ROk)", o.N, coqBudget(o.B), gcClass(e)))
+			r.observe()
 			extra["dir"] = r.dirState()
 			extra["fsck_after_gc"] = r.fsck()
 		case "iter":
@@ -810,6 +877,7 @@ func (r *runner) run() (term string, err error) {
 			jr.Extra = extra
 		}
 		verifhook.Set(nil)
+		r.hook = nil
 		r.enc.Encode(jr)
 		for _, pr := range pendingRecs {
 			r.enc.Encode(pr)
